@@ -152,7 +152,66 @@ def strings(case):
     return {"chains": out}
 
 
+JOINS = {"one_back": lambda a, c: a.one == c.back, "back_is_a": lambda a, c: c.back == a, "other_is_c": lambda a, c: a.other == c,
+         "one_a_back_a": lambda a, c: a.one.a == c.back.a, "back_ref": lambda c, m: c.back == m.ref}
+JFILTERS = {"none": None, "a.a=0": lambda a, c: a.a == 0, "a.b=1": lambda a, c: a.b == 1, "c.tag=0": lambda a, c: c.tag == 0,
+            "c.tag=1": lambda a, c: c.tag == 1}
+
+
+def joins(case):
+    """Two variables of different classes joined through relationship attributes (SqlJoin.tla): the selected variable is
+    reported once per binding. Observed: the bag of names from memory and from SQL, and the outcome of the(...)."""
+    objs, vcs = STATE["objs"], STATE["vcs"]
+    vms = {("m" if n[0] == "c" else "n") + n[1]: c.m for n, c in vcs.items()}
+    if case["join"] == "back_ref":
+        LT, RT, L, R = VC, VM, vcs, vms
+    else:
+        LT, RT, L, R = VA, VC, objs, vcs
+    pool = L if case["sel"] == "l" else R
+    pname = {id(o): n for n, o in pool.items()}
+
+    def q(doml, domr, quant):
+        l = let(LT, doml, name="l")
+        r = let(RT, domr, name="r")
+        cond = JOINS[case["join"]](l, r)
+        f = JFILTERS[case["filter"]]
+        if f is not None:
+            cond = and_(cond, f(l, r) if case["join"] != "back_ref" else f(None, l))
+        return (the if quant == "the" else an)(entity(l if case["sel"] == "l" else r, cond))
+
+    def sql_name(r):
+        if hasattr(r, "name"):
+            return r.name
+        if hasattr(r, "label") and not hasattr(r, "tag"):
+            return next(n for n, o in vms.items() if o.label == r.label)
+        return next(n for n, o in vcs.items() if o.tag == r.tag and o.tag2 == r.tag2 and
+                    (o.m.label if o.m else None) == (r.m.label if r.m else None))
+    out = {}
+    for quant in ("an", "the"):
+        key = "" if quant == "an" else "the_"
+        try:
+            res = q(list(L.values()), list(R.values()), quant).evaluate()
+            res = [res] if quant == "the" else list(res)
+            out[key + "memory"] = sorted(pname[id(x)] for x in res)
+        except Exception as ex:
+            out[key + "memory_error"] = type(ex).__name__
+        with Session(STATE["engine"]) as s:
+            try:
+                t = eql_to_sql(q([], [], quant), s)
+                res = t.evaluate()
+                res = res if isinstance(res, list) else [res]
+                out[key + "sql"] = sorted(sql_name(x) for x in res)
+                out["sql_text"] = str(t.sql_query)[-400:]
+            except EQLTranslationError as ex:
+                out[key + "rejected"] = type(ex).__name__
+            except Exception as ex:
+                out[key + "sql_error"] = f"{type(ex).__name__}: {str(ex)[:160]}"
+    return {"joins": out}
+
+
 def handle(case):
+    if "join" in case:
+        return joins(case)
     if "satoms" in case:
         return strings(case)
     if "atoms" in case:
